@@ -7,7 +7,7 @@ from rv.checks import common
 PROP = "C01"
 EOS = "▪"
 RULE = (
-    "case = (generated grammar, weight domain Boolean/Float/Real, rule permutation, renaming); for every context over "
+    "case = (generated grammar, weight domain Boolean / Float with dyadic, all-one, tiny (1e-13 x) or huge (1e6 x) weights, rule permutation, renaming incl. falsy nonterminal names, optional clear_cache() every k-th query); for every context over "
     "V+{EOS} up to the tier's bound (viable or not, with or without EOS inside) the key set of "
     "BoolCFGLM(cfg, alg).p_next(context) for alg in {earley, cky} is compared with {t : Boolean prefix weight of "
     "context+t in the oracle's own S'->S EOS grammar}. evaluations = (context, back-end) decisions; a case is "
@@ -40,7 +40,7 @@ def gates(tier):
     return {
         "min_decided": {a: 1500 * k for a in APIS},
         "shapes": {c: 3 * k for c in ["eps_rule", "nullable_cycle", "unary_cycle", "left_recursive", "useless_symbol",
-                                      "empty_language", "unary_rule", "ctx:nonviable", "ctx:viable", "ctx:has_eos", "w:Float", "w:Boolean"]},
+                                      "empty_language", "unary_rule", "ctx:nonviable", "ctx:viable", "ctx:has_eos", "w:Float", "w:Boolean", "w:Float-tiny", "w:Float-ones", "w:Float-huge", "clear_cache-between-queries"]},
         "min_hashseeds": 2,
     }
 
@@ -55,9 +55,12 @@ def gen_case(rng, spec):
     return {
         "g": {k: g[k] for k in ("S", "V", "rules")},
         "R": rng.choice(["Boolean", "Boolean", "Float"]),
+        # BoolCFGLM only looks at the sign of a weight: magnitudes (tiny, one, huge) must not matter
+        "scale": rng.choice([None, None, "ones", "tiny", "huge"]),
+        "clear_every": rng.choice([0, 0, 5, 11]),
         "maxlen": maxlen,
         "perm": rng.randrange(1 << 30) if rng.random() < 0.5 else None,
-        "rename": rng.choice([None, None, "int", "str", "tuple"]),
+        "rename": rng.choice([None, None, "int", "str", "tuple", "int0", "tuple0"]),
     }
 
 
@@ -99,12 +102,21 @@ def run_case(case, ctx):
     ok, cfg = ctx.call(APIS[0], case, lib.build_cfg, g, R)
     if not ok:
         return
+    if R == "Float" and case.get("scale"):
+        f = {"ones": (lambda w: 1.0), "tiny": (lambda w: w * 1e-13), "huge": (lambda w: w * 1e6)}[case["scale"]]
+        ok, cfg = ctx.call(APIS[0], case, cfg.map_values, f, cfg.R)
+        if not ok:
+            return
+        ctx.shape[f"w:Float-{case['scale']}"] += 1
     for alg, api in (("earley", APIS[0]), ("cky", APIS[1])):
         ok, lm = ctx.call(api, case, BoolCFGLM, cfg, alg=alg)
         if not ok:
             continue
-        for c in contexts:
+        for ci, c in enumerate(contexts):
             cc = dict(case, context=list(c), alg=alg)
+            if case.get("clear_every") and ci % case["clear_every"] == case["clear_every"] - 1:
+                ctx.shape["clear_cache-between-queries"] += 1
+                ctx.call(api, cc, lm.clear_cache)
             ok, p = ctx.call(api, cc, lm.p_next, c)
             if not ok:
                 continue
